@@ -19,7 +19,9 @@ GOOGLE_TITLES = {"parameters": "Args", "other parameters": "Keyword Args", "retu
 NUMPY_TITLES = {"parameters": "Parameters", "other parameters": "Other Parameters", "returns": "Returns", "yields": "Yields", "receives": "Receives", "raises": "Raises",
                 "warns": "Warns", "attributes": "Attributes", "functions": "Functions", "classes": "Classes", "modules": "Modules", "examples": "Examples", "deprecated": "Deprecated"}
 SIG = {"alpha": ("int", "1"), "beta": ("str", "'b'"), "gamma": (None, None), "delta": ("list[int]", None)}
-DESCS = [["Plain text."], ["First line,", "second line."], ["Paragraph one.", "", "Paragraph two."], ["Mentions: a colon."], ["Ends (with) parens."]]
+DESCS = [["Plain text."], ["First line,", "second line."], ["Paragraph one.", "", "Paragraph two."], ["Mentions: a colon."], ["Ends (with) parens."],
+         # markup inside a description: an underlined sub-heading and a horizontal rule (a line of dashes after a text line is no section boundary here)
+         ["Summary.", "", "Details", "-------", "Underlined heading above."], ["Before the rule.", "---", "After the rule."]]
 TYPES = [None, "int", "dict[str, int]", "str | None"]
 NAMES = ["alpha", "beta", "gamma", "delta", "omega"]
 EXCS = ["ValueError", "KeyError", "mod.CustomError"]
